@@ -15,8 +15,21 @@ Streams (DESIGN 3.2):
   resi    RESI(...) decoding of class / number / alias / chain in either order vs `resiSpec` / `resiDecode`
   include _find_included_files + parse: the spliced line order vs `spliceSpec` / `splice`
 Only what the property names is observed. `afix` is observed as 0 for an atom that has no AFIX object at all.
+
+Forms. Every instruction the atom rules depend on is written in every prefix of its optional parameters
+(`FRAG code[17] a[1] b[1] c[1] al[90] be[90] ga[90]`: 0..7 parameters; `HKLF n[0] s[1] r11..r33 sm[1] m[0]`: bare to 13
+parameters; `AFIX mn d[#] sof[11] U[10.08]`; `PART n sof[11]`; `RESI class[ ] number[0] alias`, bare `RESI` = back to
+residue 0; atom lines `name sfac x y z sof[11] U[0.05] ...` with 5, 6, 7 or 12 columns) — `form_cases` enumerates them
+systematically (quick tier, first), the random stream mixes them. The driver is told how many parameters FRAG and
+HKLF carry (`Line.frag np`, `Line.hklf np`: theorems `truthiness_needed_frag/_hklf`).
+Configurations: the file is read by a quiet (default), verbose or debug `Shelxfile` (`case['cfg']`); what the library
+prints is not looked at.
 """
+import contextlib
+import io
 import itertools
+import multiprocessing
+import os
 import shutil
 import zlib
 import tempfile
@@ -38,7 +51,27 @@ def f5(x):
 
 
 EXPLICIT = '13.338 3.5828 7.1676 0.247 5.6158 11.3966 1.6735 64.8126 1.191 0.3201 1.2651 47.3486 1.28 63.546'.split()
-HKLF_FORMS = ['HKLF 4', 'HKLF 5', 'HKLF 4 1 1 0 0 0 1 0 0 0 1', 'HKLF 3', 'HKLF 4 1']
+HKLF_FORMS = ['HKLF 4', 'HKLF 5', 'HKLF 4 1 1 0 0 0 1 0 0 0 1', 'HKLF 3', 'HKLF 4 1',
+              # (appended: indices of older replays stay valid) every prefix class of `HKLF n[0] s[1] r11..r33 sm[1] m[0]`
+              'HKLF', 'HKLF 4 1 0 1 0 1 0 0 0 0 -1 1', 'HKLF 4 1 1 0 0 0 1 0 0 0 1 1 0', 'HKLF 0', 'HKLF 2 0.5']
+FRAG_CELLS = ['1 1 1 90 90 90', '10.5 11.25 12.75 90 95.5 90']
+
+
+def hklf_form(it):
+    return HKLF_FORMS[it[1]] if len(it) > 1 else 'HKLF 4'
+
+
+def frag_np(it):
+    """how many of FRAG's seven parameters are written (items of older replays: all seven)"""
+    return it[3] if len(it) > 3 else 7
+
+
+def resi_cls(it):
+    return '' if it[3] in ('n', 'bare') else it[1]
+
+
+def resi_num(it):
+    return 0 if it[3] in ('c', 'bare') else it[2]
 
 
 def pick(it, n, salt=0):
@@ -50,6 +83,8 @@ def kw(word, it, st):
     """keywords are case-insensitive"""
     if not st or not st.get('kw'):
         return word
+    if st['kw'] in ('lower', 'title'):       # forced (systematic enumeration)
+        return word.lower() if st['kw'] == 'lower' else word.capitalize()
     return [word, word.lower(), word.capitalize(), word][pick(it, 4, 1)]
 
 
@@ -70,7 +105,14 @@ def cmt(line, it, st):
 def atom_text(it, st=None):
     """['atom', name, sfac, [x,y,z], sof, [u…], wrap] -> one or two physical lines"""
     _, name, sfac, xyz, sof, u, wrap = it
-    head = f'{name:<5}{sfac:>2}  ' + '  '.join(f'{v:.6f}' for v in xyz) + f'  {num(sof, it, st)}'
+    head = f'{name:<5}{sfac:>2}  ' + '  '.join(f'{v:.6f}' for v in xyz)
+    if sof is None:       # name sfac x y z: sof[11] and U[0.05] omitted
+        if u:
+            raise RuntimeError('harness: an atom line without sof cannot carry U values')
+        return [cmt(head, it, st)]
+    head += f'  {num(sof, it, st)}'
+    if not u:             # name sfac x y z sof
+        return [cmt(head, it, st)]
     us = [num(v, it, st, 1 + j) for j, v in enumerate(u)]
     if wrap and len(us) == 6:
         return [head + '  ' + '  '.join(us[:2]) + ' =', '     ' + '  '.join(us[2:])]
@@ -82,7 +124,7 @@ def resi_tokens(it):
     _, cls, num_, form, alias, chain = it
     n = f'{chain}:{num_}' if chain else str(num_)
     toks = {'cn': [cls, n], 'nc': [n, cls], 'n': [n], 'c': [cls], 'cna': [cls, n, str(alias)], 'nca': [n, cls, str(alias)],
-            'nac': [n, str(alias), cls]}[form]
+            'nac': [n, str(alias), cls], 'bare': []}[form]
     return toks
 
 
@@ -93,17 +135,20 @@ def item_text(it, st=None):
     if k == 'afix':
         return [cmt(kw('AFIX', it, st) + ' ' + ' '.join(str(v) for v in it[1:]), it, st)]
     if k == 'resi':
-        return [cmt(kw('RESI', it, st) + ' ' + ' '.join(resi_tokens(it)), it, st)]
+        return [cmt(' '.join([kw('RESI', it, st)] + resi_tokens(it)), it, st)]
     if k == 'atom':
         return atom_text(it, st)
     if k == 'frag':
-        out = [kw('FRAG', it, st) + f' {it[1]} 1 1 1 90 90 90']
-        for j, nm in enumerate(it[2]):
-            out.append(f'{nm:<5}{1:>2}  {0.1 + 0.11 * j:.5f}  {0.2 + 0.07 * j:.5f}  {0.3 - 0.05 * j:.5f}')
+        # ['frag', code, names, np, variant]: np of the seven parameters written; variant 1 = a block as DSR writes it
+        # (real cell, Cartesian coordinates beyond 0..1 and negative, lines with sof and U, a remark and a blank line)
+        variant = it[4] if len(it) > 4 else 0
+        params = ([str(it[1])] + FRAG_CELLS[variant % 2].split())[:frag_np(it)]
+        out = [cmt(' '.join([kw('FRAG', it, st)] + params), it, st)]
+        for ln in frag_lines(it):
+            out.append(ln[1])
         return out + [kw('FEND', it, st)]
     if k == 'hklf':
-        form = HKLF_FORMS[it[1]] if len(it) > 1 else 'HKLF 4'
-        return [cmt(kw('HKLF', it, st) + form[4:], it, st)]
+        return [cmt(kw('HKLF', it, st) + hklf_form(it)[4:], it, st)]
     if k == 'end':
         return [cmt(kw('END', it, st), it, st)]
     if k == 'other':
@@ -111,6 +156,26 @@ def item_text(it, st=None):
     if k == 'inc':
         return ['+' + it[1]]
     raise ValueError(k)
+
+
+def frag_lines(it):
+    """the lines between FRAG and FEND: [(kind, text, sfac, sof, [u])…], kind 'atom' | 'other'"""
+    variant = it[4] if len(it) > 4 else 0
+    out = []
+    for j, nm in enumerate(it[2]):
+        if variant == 0:
+            out.append(('atom', f'{nm:<5}{1:>2}  {0.1 + 0.11 * j:.5f}  {0.2 + 0.07 * j:.5f}  {0.3 - 0.05 * j:.5f}', 1, 11.0, []))
+        else:
+            xyz = f'{1.2 - 1.1 * j:.5f}  {-0.7 * j:.5f}  {2.35 - 0.9 * j:.5f}'
+            sf = 1
+            if j % 2:
+                out.append(('atom', f'{nm:<5}{sf:>2}  {xyz}  11.00000  0.05000', sf, 11.0, [0.05]))
+                out.append(('other', 'REM inside the fragment', None, None, None))
+            else:
+                out.append(('atom', f'{nm:<5}{sf:>2}  {xyz}', sf, 11.0, []))
+                if j:
+                    out.append(('other', '', None, None, None))
+    return out
 
 
 def sfac_lines(case):
@@ -170,17 +235,23 @@ def abstract(case):
         elif k == 'afix':
             lines.append(['afix', it[1]])
         elif k == 'resi':
-            lines.append(['resi', it[1] if it[3] != 'n' else '', it[2] if it[3] != 'c' else 0])
+            lines.append(['resi', resi_cls(it), resi_num(it)])
         elif k == 'atom':
-            lines.append(['atom', len(info), it[2], float(f5(it[4])), [float(f5(v)) for v in it[5]]])
-            info.append(dict(name=it[1], xyz=[float(f'{v:.6f}') for v in it[3]]))
+            lines.append(['atom', len(info), it[2], 11.0 if it[4] is None else float(f5(it[4])), [float(f5(v)) for v in it[5]]])
+            info.append(dict(name=it[1], xyz=[float(f'{v:.6f}') for v in it[3]], no_u=not it[5]))
         elif k == 'frag':
-            lines.append(['frag'])
-            for nm in it[2]:
-                lines.append(['atom', len(info), 1, 11.0, []])
-                info.append(dict(name=nm, xyz=None))
+            lines.append(['frag', frag_np(it)])
+            names = iter(it[2])
+            for kind, _, sf, sof, u in frag_lines(it):
+                if kind == 'atom':
+                    lines.append(['atom', len(info), sf, sof, u])
+                    info.append(dict(name=next(names), xyz=None))
+                else:
+                    lines.append(['other'])
             lines.append(['fend'])
-        elif k in ('hklf', 'end'):
+        elif k == 'hklf':
+            lines.append(['hklf', len(hklf_form(it).split()) - 1])
+        elif k == 'end':
             lines.append([k])
         else:
             lines.append(['other'])
@@ -199,14 +270,14 @@ def expected(case):
         elif k == 'afix':
             afix = it[1]
         elif k == 'resi':
-            rcls, rnum = (it[1] if it[3] != 'n' else ''), (it[2] if it[3] != 'c' else 0)
+            rcls, rnum = resi_cls(it), resi_num(it)
         elif k in ('hklf', 'end'):
             part, psof, afix, rnum, rcls, after = 0, 11.0, 0, 0, '', True
         elif k == 'frag':
             tag += len(it[2])
         elif k == 'atom':
             u = [float(f5(v)) for v in it[5]]
-            out.append(dict(tag=tag, sfac=it[2], sof=psof if psof != 11.0 else float(f5(it[4])), u=u + [0.0] * (6 - len(u)),
+            out.append(dict(tag=tag, sfac=it[2], sof=psof if psof != 11.0 else (11.0 if it[4] is None else float(f5(it[4]))), u=u + [0.0] * (6 - len(u)),
                             part=part, afix=afix, rnum=rnum, rcls=rcls, q=after))
             tag += 1
     return out
@@ -215,6 +286,10 @@ def expected(case):
 # ------------------------------------------------------------------------------------------------
 # implementation side
 
+# where the files of a case are written: memory-backed if the machine has it (sixteen workers creating and removing a
+# directory per case serialise on the journal of a disk file system)
+SCRATCH = '/dev/shm' if os.path.isdir('/dev/shm') and os.access('/dev/shm', os.W_OK) else None
+
 def afix_of(a):
     af = a.afix
     if af is None:
@@ -222,12 +297,20 @@ def afix_of(a):
     return af.mn or 0
 
 
-def write_files(case, d):
+def write_files(case, d, pad=False):
+    """`pad`: a debug-mode Shelxfile leaves the interpreter (sys.exit) in read_file() when the file has fewer than 20
+    lines ("Not a SHELXL file"); that strictness is not C03's subject, so such files get remarks in front of the body"""
     d.mkdir(parents=True, exist_ok=True)
     for name, items in case.get('includes', {}).items():
         (d / name).write_text(file_text(case, items, False))
     main = d / 'main.res'
-    main.write_text(file_text(case, case['body'], True))
+    text = file_text(case, case['body'], True)
+    n = len(text.splitlines())
+    if pad and n < 24:
+        head = len(HEADER) + len(sfac_text(case)) + 2
+        lines = text.splitlines()
+        text = '\n'.join(lines[:head] + [f'REM padding {i}' for i in range(24 - n)] + lines[head:]) + '\n'
+    main.write_text(text)
     return main
 
 
@@ -235,14 +318,25 @@ def needs_disk(case):
     return bool(case.get('includes')) or case.get('mode') == 'file'
 
 
+def new_shx(cfg=None):
+    """a Shelxfile in one of its three configurations (quiet is the default)"""
+    from shelxfile import Shelxfile
+    if cfg == 'debug':
+        return Shelxfile(debug=True)
+    if cfg == 'verbose':
+        return Shelxfile(verbose=True)
+    return Shelxfile()
+
+
 def do_read(shx, case, d):
-    """one read through the public API; -> error text or None"""
+    """one read through the public API; -> error text or None. What the library prints is swallowed."""
     try:
-        if needs_disk(case):
-            shx.read_file(write_files(case, d))
-        else:
-            shx.read_string(file_text(case, case['body'], True))
-    except Exception as e:
+        with contextlib.redirect_stdout(io.StringIO()):
+            if needs_disk(case):
+                shx.read_file(write_files(case, d, pad=shx.debug))
+            else:
+                shx.read_string(file_text(case, case['body'], True))
+    except (Exception, SystemExit) as e:
         return f'{"read_file" if needs_disk(case) else "read_string"} raised {type(e).__name__}'
     return None
 
@@ -275,7 +369,7 @@ def read_obs(shx, case, with_order):
                 s_ = str(x)
             except Exception:   # printing an object is not what C03 is about (e.g. SFAC table with an element twice)
                 s_ = type(x).__name__.upper().replace('TABLE', '')
-            if not s_.strip() or s_.startswith('+') or (isinstance(x, str) and x.startswith(' ')):
+            if not s_.strip() or s_.startswith('+') or (isinstance(x, str) and x.startswith(' ')) or s_.startswith('REM padding'):
                 continue
             order.append(s_.split()[0].upper())
     return dict(atoms=atoms, views=views, order=order)
@@ -287,29 +381,29 @@ def observe_impl(case):
     (read_string / read_file re-initialise it) or on another object (module/class level state); after each of them
     every observable is queried once, so that whatever the library caches is filled. case['final'] == 'reload': the
     last file replaces the previous one on disk and is read with reload()."""
-    from shelxfile import Shelxfile
-    shx = Shelxfile()
+    shx = new_shx(case.get('cfg'))
     hist = case.get('history') or []
     reload_ = case.get('final') == 'reload'
     tmp = None
     try:
         if needs_disk(case) or reload_ or any(needs_disk(s['file']) for s in hist):
-            tmp = Path(tempfile.mkdtemp(prefix='verif_c03_'))
+            tmp = Path(tempfile.mkdtemp(prefix='verif_c03_', dir=SCRATCH))
         for i, step in enumerate(hist):
-            obj = shx if step['on'] == 'same' else Shelxfile()
+            obj = shx if step['on'] == 'same' else new_shx(step['file'].get('cfg'))
             if do_read(obj, step['file'], tmp / f'h{i}' if tmp else None) is None:
                 read_obs(obj, step['file'], False)
         if reload_:
             first = hist[-1]['file'] if hist else dict(sfac=['C'], body=[['hklf'], ['end']])
             d = tmp / 'reload'
             try:
-                shx.read_file(write_files(first, d))
-                read_obs(shx, first, False)
-                for f in d.iterdir():
-                    f.unlink()
-                write_files(case, d)
-                shx.reload()
-            except Exception as e:
+                with contextlib.redirect_stdout(io.StringIO()):
+                    shx.read_file(write_files(first, d, pad=shx.debug))
+                    read_obs(shx, first, False)
+                    for f in d.iterdir():
+                        f.unlink()
+                    write_files(case, d, pad=shx.debug)
+                    shx.reload()
+            except (Exception, SystemExit) as e:
                 return dict(error=f'reload raised {type(e).__name__}')
         else:
             err = do_read(shx, case, tmp / 'final' if tmp else None)
@@ -324,7 +418,7 @@ def observe_impl(case):
 def case_classes(case):
     cl = []
     for it in expand(case):
-        if it[0] == 'resi' and it[3] != 'n' and it[1] not in cl:
+        if it[0] == 'resi' and it[3] not in ('n', 'bare') and it[1] not in cl:
             cl.append(it[1])
     return cl + ['']
 
@@ -355,6 +449,8 @@ def features(case):
         f.add('after-earlier-read')
     if case.get('style'):
         f.add('style:' + '+'.join(k for k, v in sorted(case['style'].items()) if v))
+    if case.get('cfg'):
+        f.add('cfg:' + case['cfg'])
     opened = dict(part=False, afix=False, resi=False)
     seen_barrier = False
     for it in ex:
@@ -364,14 +460,19 @@ def features(case):
         elif k == 'afix':
             opened['afix'] = it[1] != 0
         elif k == 'resi':
-            opened['resi'] = not (it[3] == 'n' and it[2] == 0)
+            opened['resi'] = not (resi_num(it) == 0 and resi_cls(it) == '')
+            if it[3] == 'bare':
+                f.add('resi-bare')
         elif k in ('hklf', 'end') and not seen_barrier:
             seen_barrier = True
             for kk, v in opened.items():
                 if v:
                     f.add(f'{kk}-open-at-hklf')
+            if k == 'hklf':
+                f.add(f'hklf-params={len(hklf_form(it).split()) - 1}')
         elif k == 'frag':
             f.add('frag')
+            f.add(f'frag-params={frag_np(it)}')
         elif k == 'inc':
             f.add('include')
         elif k == 'atom':
@@ -379,6 +480,8 @@ def features(case):
                 f.add('peaks')
             if len(it[5]) == 6:
                 f.add('aniso')
+            if not it[5]:
+                f.add('atom-5-columns' if it[4] is None else 'atom-6-columns')
     return f
 
 
@@ -398,6 +501,8 @@ def compare_atoms(case, info, impl_atoms, ref, el_key):
         if not all(core.close(g, w, 1e-9, 1e-9) for g, w in zip(a['xyz'], xyz)):
             diffs.append(('xyz', pos, f'{a["name"]}: coordinates {a["xyz"]}, line says {xyz}'))
         for attr in ATTRS:
+            if attr == 'u' and el_key == 'el_spec' and info[o['tag']].get('no_u'):
+                continue    # no displacement value on the line: the property does not say what the atom then carries
             want = o[el_key] if attr == 'el' else o[attr]
             if attr == 'el' and want is not None:
                 want = want.capitalize()
@@ -442,16 +547,22 @@ def signature(case, attr, pos):
     feats = sorted(features(case))
     rel = [f for f in feats if (attr in ('part', 'sof') and f.startswith('part-open')) or (attr == 'afix' and f.startswith('afix-open'))
            or (attr in ('rnum', 'rcls') and f.startswith('resi-open')) or (attr == 'atomlist' and f in ('frag', 'include'))
-           or (attr == 'q' and f.endswith('open-at-hklf')) or (attr == 'el' and f.startswith('sfac-'))]
+           or (attr == 'q' and f.endswith('open-at-hklf')) or (attr == 'el' and f.startswith('sfac-'))
+           or (attr == 'atomlist' and f.startswith('frag-params=')) or (attr == 'q' and f.startswith('hklf-params='))
+           or f.startswith('cfg:')]
     if 'after-earlier-read' in feats:
         rel.append('after-earlier-read')
     return f'C03|{attr}|{pos}|' + ('+'.join(rel) if rel else 'plain')
 
 
-def request(case):
+def request(case, brief=False):
+    """`brief`: the driver leaves out the model of the code before the fixes (only shown in failure payloads)"""
     lines, info = abstract(case)
     sl = [[ins[0], [e.capitalize() for e in ins[1]]] if ins[0] == 'elems' else ['explicit', ins[1].capitalize()] for ins in sfac_lines(case)]
-    return dict(p='C03', op='file', lines=lines, sfac_lines=sl, classes=case_classes(case)), info
+    rq = dict(p='C03', op='file', lines=lines, sfac_lines=sl, classes=case_classes(case))
+    if brief:
+        rq['brief'] = True
+    return rq, info
 
 
 def check_impl(case):
@@ -491,6 +602,8 @@ def shrink(case, attr, pos, budget=120):
     for simpler in (lambda c: {k: v for k, v in c.items() if k not in ('history', 'final')},
                     lambda c: dict(c, history=c['history'][-1:]) if len(c.get('history') or []) > 1 else c,
                     lambda c: {k: v for k, v in c.items() if k != 'style'},
+                    lambda c: {k: v for k, v in c.items() if k != 'cfg'},
+                    lambda c: {k: v for k, v in c.items() if k != 'mode'},
                     lambda c: {k: v for k, v in c.items() if k != 'sfac_lines'},
                     lambda c: dict(c, sfac_lines=[ins[:2] for ins in sfac_lines(c)])):
         c2 = simpler(cur)
@@ -516,6 +629,18 @@ def shrink(case, attr, pos, budget=120):
     return cur
 
 
+def report(ctx, sig, what, payload, kind='property'):
+    """ctx.fail, except that a KNOWN finding is recorded at most three times per context: every file with a Q-peak
+    reproduces the two recorded findings of the counts, and ctx.fail walks the whole list of failures on each call
+    (two hundred thousand peaks files made the thorough tier quadratic — an hour instead of minutes)"""
+    if sig in ctx.known:
+        seen = ctx.__dict__.setdefault('_c03_known_seen', {})
+        if seen.get(sig, 0) >= 3:
+            return
+        seen[sig] = seen.get(sig, 0) + 1
+    ctx.fail(sig, what, payload, kind)
+
+
 def evaluate(ctx, cases, stream=None):
     if stream == 'resi':
         return evaluate_resi(ctx, cases)
@@ -523,11 +648,12 @@ def evaluate(ctx, cases, stream=None):
     ctx.stream('views')
     reqs, infos = [], []
     for case in cases:
-        r, info = request(case)
+        r, info = request(case, brief=stream is None)
         reqs.append(r)
         infos.append(info)
     answers = ctx.driver.batch(reqs)
-    for case, info, ans in zip(cases, infos, answers):
+    seen_obs = {}
+    for idx, (case, info, ans) in enumerate(zip(cases, infos, answers)):
         exp = expected(case)
         spec = ans['spec']
         # the generator's own expectation and the specification must agree (both are "the rule"); if they do not
@@ -543,8 +669,10 @@ def evaluate(ctx, cases, stream=None):
             raise RuntimeError(f'harness: py_valid differs from the Lean predicate `valid` for {case}')
         feats = features(case)
         obs = observe_impl(case)
+        if case.get('includes'):
+            seen_obs[idx] = obs
         n_atoms = len(spec)
-        ctx.count(['atoms', sfac_lines(case), case.get('style'), case['body'], case.get('includes'), case.get('history'), case.get('final')], nontrivial=n_atoms > 0 and len(feats) > 0,
+        ctx.count(['atoms', sfac_lines(case), case.get('style'), case['body'], case.get('includes'), case.get('history'), case.get('final'), case.get('cfg'), case.get('mode')], nontrivial=n_atoms > 0 and len(feats) > 0,
                   tags=['valid' if ans['valid'] else 'outside-domain', f'atoms={min(n_atoms, 10)}'] + sorted(feats),
                   sample=dict(stream='atoms', text=file_text(case, case['body'], True).splitlines()[6:18],
                               impl=[[a.get('name'), a.get('part'), a.get('afix'), a.get('rnum'), a.get('rcls'), a.get('sof'), a.get('q')]
@@ -561,12 +689,20 @@ def evaluate(ctx, cases, stream=None):
                     continue
                 done.add((attr, pos))
                 small, sm_msg, sm_ans, sm_obs = case, msg, ans, obs
+                pre = signature(case, attr, pos)
+                memo = ctx.__dict__.setdefault('_c03_shrunk', {})     # class of failing files -> [times minimised, first signature]
+                if stream is None and memo.get(pre, [0])[0] >= 3:
+                    # the verdict on this class is settled: no further minimisation (a broken tree fails on hundreds of files)
+                    ctx.fail(memo[pre][1], msg, dict(case=case, stream='atoms', expected=spec, actual=obs.get('atoms'), model=ans['model']))
+                    continue
                 if stream is None:      # not a replay: minimise, then describe the minimal file
                     small = shrink(case, attr, pos)
                     sm_req, sm_info = request(small)
                     sm_ans = ctx.driver.one(sm_req)
                     sm_obs = observe_impl(small)
                     sm_msg = next((m for a_, p_, m in compare_atoms(small, sm_info, sm_obs.get('atoms', []), sm_ans['spec'], 'el_spec') if a_ == attr), msg)
+                if stream is None:
+                    memo.setdefault(pre, [0, signature(small, attr, pos)])[0] += 1
                 ctx.fail(signature(small, attr, pos), sm_msg + history_text(small) + '   [' + ('' if len(sfac_lines(small)) == 1 and sfac_lines(small)[0][0] == 'elems' else ' / '.join(sfac_text(small)) + ' ... ') + 'body: ' + ' / '.join(file_text(small, small['body'], False).splitlines()) + ']',
                          dict(case=small, stream='atoms', expected=sm_ans['spec'], actual=sm_obs.get('atoms'), model=sm_ans['model'],
                               model_of_code_before_fixes=sm_ans['before_fix']))
@@ -599,16 +735,17 @@ def evaluate(ctx, cases, stream=None):
                 qp = 'with-zero-height-peaks'
             payload = dict(case=case, stream='views', expected=want, actual=obs['views'], model=model_views)
             if got != w:
-                ctx.fail(f'C03|view|{key}|{qp}', f'{key} = {got!r}, the atom list filtered by the rule gives {w!r}', payload)
+                report(ctx, f'C03|view|{key}|{qp}', f'{key} = {got!r}, the atom list filtered by the rule gives {w!r}', payload)
             if got != model_views[key]:
                 ctx.fail(f'C03|view|{key}|{qp}|model', f'{key} = {got!r}, model {model_views[key]!r}', payload, kind='correspondence')
-    evaluate_include(ctx, [c for c in cases if c.get('includes')])
+    inc = [i for i, c in enumerate(cases) if c.get('includes')]
+    evaluate_include(ctx, [cases[i] for i in inc], [seen_obs.get(i) for i in inc])
 
 
 # ------------------------------------------------------------------------------------------------
 # include splicing: order of lines
 
-def evaluate_include(ctx, cases):
+def evaluate_include(ctx, cases, observed=None):
     """the instruction sequence the parser ends up with (first word of every non-blank entry of the line list; the
     '+file' lines themselves and continuation lines are not looked at) against the spliced file"""
     if not cases:
@@ -637,8 +774,8 @@ def evaluate_include(ctx, cases):
         reqs.append(dict(p='C03', op='splice', main=main, fs=fs))
         maps.append(first)
     answers = ctx.driver.batch(reqs)
-    for case, first, ans in zip(cases, maps, answers):
-        obs = observe_impl(case)
+    for k, (case, first, ans) in enumerate(zip(cases, maps, answers)):
+        obs = observed[k] if observed and observed[k] is not None else observe_impl(case)
         ctx.count(['include', case['body'], case['includes']], nontrivial=True,
                   tags=['include', f'files={len(case["includes"])}', 'include-in-domain' if ans['in_domain'] else 'include-outside'])
         if 'error' in obs or obs.get('order') is None:
@@ -699,7 +836,8 @@ class Builder:
     def name(self, el):
         return gen.atom_name(self.rng, el, self.used)
 
-    def atom(self, hydrogen=None):
+    def atom(self, hydrogen=None, name=None):
+        """`name`: (name, sfac number) to use — the structure atom that carries the name of a FRAG line"""
         rng = self.rng
         self.k += 1
         k = self.k
@@ -711,7 +849,18 @@ class Builder:
             height = 0.0 if self.ended and self.rng.random() < 0.15 else round(3.0 - 0.07 * k, 2)
             return ['atom', f'Q{k}', 1, xyz, 11.0, [0.05, height], False]
         if hydrogen is None:
-            hydrogen = bool(hidx) and rng.random() < 0.3
+            hydrogen = bool(hidx) and rng.random() < 0.3 and name is None
+        if name is not None:
+            r = rng.random()
+            if r < 0.25:        # name sfac x y z
+                return ['atom', name[0], name[1], xyz, None, [], False]
+            if r < 0.4:         # name sfac x y z sof
+                return ['atom', name[0], name[1], xyz, rand_sof(rng), [], False]
+            return ['atom', name[0], name[1], xyz, rand_sof(rng) if rng.random() < 0.4 else 11.0, [round(0.02 + 0.0007 * k, 5)], False]
+        if not hydrogen and rng.random() < 0.08:
+            s = rng.choice([i for i in range(len(self.sfac)) if i not in hidx] or [0]) + 1
+            short = rng.random() < 0.5
+            return ['atom', self.name(self.sfac[s - 1]), s, xyz, None if short else rand_sof(rng), [], False]
         if hydrogen and hidx:
             s = rng.choice(hidx) + 1
             u = [rng.choice([-1.2, -1.5, 0.05 + 0.001 * k])]
@@ -732,8 +881,12 @@ class Builder:
             return ['part', n, rng.choice([None, None, 21.0, -21.0, 31.0, 10.5, -31.0, 11.0]) if n != 0 else None]
         if r < 0.65:
             mn = rng.choice([43, 23, 137, 13, 66, 33, 147, 0, 0, 0])
-            return ['afix', mn] + ([0.98] if mn and rng.random() < 0.2 else [])
+            # AFIX mn d[#] sof[11] U[10.08]: every prefix (sof and U of AFIX are for generated hydrogens only)
+            extra = [0.98, rng.choice([21.0, 10.5, 11.0, -31.0]), rng.choice([-1.2, 10.08, 0.05])][:rng.choice([0, 0, 0, 1, 2, 3])]
+            return ['afix', mn] + (extra if mn else [])
         num = rng.choice([1, 2, 3, 7, 12, 250, 9999, 0, 0, -3])
+        if num == 0 and rng.random() < 0.4:
+            return ['resi', '', 0, 'bare', 0, None]
         form = rng.choice(['cn', 'nc', 'n', 'cn', 'nc', 'cna', 'nca', 'nac']) if num > 0 else rng.choice(['n', 'cn', 'nc'])
         chain = rng.choice(['A', 'b']) if num > 0 and form in ('cn', 'nc') and rng.random() < 0.15 else None
         return ['resi', rng.choice(CLASSES), num, form, rng.choice([5, 17, 301]), chain]
@@ -782,8 +935,17 @@ def make_file(rng, sfac=None, small=False):
             elif r < 0.9:
                 items.append(['other', rng.choice(OTHERS)])
             elif r < 0.95 and not b.after:
-                items.append(['frag', rng.choice([17, 176]), [b.name('C') for _ in range(rng.randint(1, 3))]])
-                if rng.random() < 0.7:
+                # FRAG code[17] a[1] b[1] c[1] al[90] be[90] ga[90] in every prefix; half of the blocks as DSR writes
+                # them, followed by structure atoms that carry the names of the FRAG lines
+                heavy = [i for i, e in enumerate(sfac) if e.upper() not in ('H', 'D')] or [0]
+                targets = [rng.choice(heavy) for _ in range(rng.randint(1, 3))]
+                names = [b.name(sfac[t]) for t in targets]
+                items.append(['frag', rng.choice([17, 176]), names, rng.choice([0, 0, 1, 1, 2, 4, 7, 7, 3, 5, 6]), rng.randrange(2)])
+                r2 = rng.random()
+                if r2 < 0.4:
+                    for nm, t in zip(names, targets):
+                        items.append(b.atom(name=(nm, t + 1)))
+                elif r2 < 0.8:
                     items.append(b.atom())
             elif depth < 2 and len(includes) < 3 and not b.after:
                 name = f'inc{len(includes) + 1}.ins'
@@ -795,7 +957,7 @@ def make_file(rng, sfac=None, small=False):
     body += block(rng.randint(2, 5 if small else 12))
     closing = rng.random()
     if closing < 0.5:      # close everything before HKLF, as SHELXL writes it
-        body += [['afix', 0], ['part', 0, None], ['resi', '', 0, 'n', 0, None]][:rng.randint(0, 3)]
+        body += [['afix', 0], ['part', 0, None], ['resi', '', 0, rng.choice(['n', 'n', 'bare']), 0, None]][:rng.randint(0, 3)]
     if rng.random() < 0.9:
         body.append(['hklf'])
         b.after = True
@@ -830,6 +992,9 @@ def make_file(rng, sfac=None, small=False):
         case['includes'] = includes
     elif rng.random() < 0.1:
         case['mode'] = 'file'
+    r = rng.random()
+    if r < 0.24:
+        case['cfg'] = 'verbose' if r < 0.12 else 'debug'
     return case
 
 
@@ -873,9 +1038,14 @@ def enum_case(seq, gaps):
                 body.append(['atom', names[a], a + 1, xyz, [11.0, 10.5, 11.0][a], [[0.03], [-1.2], [0.02, 0.03, 0.04, -0.002, 0.003, -0.004]][a], False])
             a += 1
         if pos < len(seq):
-            it = ALPHABET[seq[pos]]
+            it = list(ALPHABET[seq[pos]])
             after = after or it[0] == 'hklf'
-            body.append(list(it))
+            # the same instruction in its shortest spelling: bare `RESI` for `RESI 0`, bare `HKLF`
+            if it[0] == 'resi' and it[3] == 'n' and (sum(seq) + pos) % 2:
+                it[3] = 'bare'
+            if it[0] == 'hklf' and (sum(gaps) + pos) % 3 == 0:
+                it = ['hklf', 5]
+            body.append(it)
     if not after:
         body.append(['hklf'])
     body.append(['end'])
@@ -890,7 +1060,99 @@ def enum_case(seq, gaps):
         case['history'] = [dict(on='same', file=EARLIER)]
         if sum(gaps) % 2:
             case['final'] = 'reload'
+    cfg = [None, None, 'verbose', 'debug'][(len(seq) + 2 * sum(seq) + sum(gaps)) % 4]
+    if cfg:
+        case['cfg'] = cfg
     return case
+
+
+# ------------------------------------------------------------------------------------------------
+# systematic: every instruction the atom rules depend on, in every prefix of its optional parameters
+
+OPEN_CTX = [['resi', 'TOL', 3, 'cn', 0, None], ['part', 2, 31.0], ['afix', 66]]
+CLOSE_CTX = [['afix', 0], ['part', 0, None], ['resi', '', 0, 'bare', 0, None]]
+CFGS = [None, 'verbose', 'debug']
+
+
+def _at(name, sfac, k, sof=11.0, u=(0.04,), wrap=False):
+    return ['atom', name, sfac, [round(0.05 + 0.07 * k, 6), round(0.9 - 0.06 * k, 6), round(0.11 * k % 0.9 + 0.03, 6)], sof, list(u), wrap]
+
+
+def _peak(k):
+    return ['atom', f'Q{k}', 1, [round(0.3 + 0.01 * k, 6), 0.25, round(0.6 - 0.02 * k, 6)], 11.0, [0.05, round(2.5 - 0.3 * k, 2)], False]
+
+
+ANISO = (0.021, 0.032, 0.043, -0.002, 0.003, -0.004)
+
+
+def form_cases():
+    """A small file per (instruction, form, surrounding context, keyword case); the three configurations and the two
+    entry points rotate. SFAC C H O N throughout; every atom is distinct in name, element and coordinates; every
+    context value differs from its default."""
+    out = []
+
+    def add(body, **kw_):
+        i = len(out)
+        case = dict(sfac=['C', 'H', 'O', 'N'], body=body)
+        if CFGS[i % 3]:
+            case['cfg'] = CFGS[i % 3]
+        if (i // 3) % 2:
+            case['mode'] = 'file'
+        case.update(kw_)
+        out.append(case)
+
+    tail = lambda n, end=True: [['hklf', n], _peak(1)] + ([['end'], _peak(2)] if end else [])
+    # FRAG code[17] a[1] b[1] c[1] al[90] be[90] ga[90]: 0..7 parameters x block style x context open / closed around it
+    for np in range(8):
+        for variant in (0, 1):
+            for ctx in (0, 1, 2):
+                for style in (None, dict(kw='lower')):
+                    if style and (np + variant + ctx) % 3:
+                        continue
+                    frag = ['frag', [17, 176][np % 2], ['C2', 'O3', 'N4'][:1 + (np + ctx) % 3], np, variant]
+                    after = [_at('C2', 1, 2, None, ()), _at('O3', 3, 3, 10.5, ()), _at('N4', 4, 4, 11.0, ANISO, True)]
+                    body = ([] if ctx == 0 else OPEN_CTX) + [_at('C1', 1, 1)] + [frag] + after[:1 + (np + variant) % 3] + \
+                           (CLOSE_CTX if ctx == 2 else []) + [_at('H5', 2, 5, 11.0, (-1.2,))] + tail((np + variant) % len(HKLF_FORMS))
+                    add(body, **(dict(style=style) if style else {}))
+    # two blocks in one file, the bare form first / last; a block in an include file
+    for a, b_ in ((0, 7), (7, 0), (1, 0), (0, 0)):
+        add([_at('C1', 1, 1), ['frag', 17, ['C2'], a, 0], _at('C2', 1, 2), ['part', 1, 21.0], ['frag', 176, ['O3', 'N4'], b_, 1],
+             _at('O3', 3, 3), _at('N4', 4, 4, 10.5), ['part', 0, None], _at('H5', 2, 5, 11.0, (-1.5,))] + tail(0))
+    for np in (0, 1, 7):
+        add([_at('C1', 1, 1), ['inc', 'frag.ins'], ['resi', 'BNZ', 7, 'nc', 0, None], _at('C2', 1, 2), _at('O3', 3, 3, None, ())] + tail(5),
+            includes={'frag.ins': [['frag', 17, ['C2', 'O3'], np, 1]]})
+    # HKLF n[0] s[1] r11..r33 sm[1] m[0]: every form x context open / closed x END present or not
+    for n in range(len(HKLF_FORMS)):
+        for ctx in (0, 1, 2):
+            for end in (True, False):
+                for style in (None, dict(kw='lower'), dict(kw='title')):
+                    if style and (n + ctx + end) % 2:
+                        continue
+                    body = ([] if ctx == 0 else OPEN_CTX) + [_at('C1', 1, 1, 10.5), _at('H2', 2, 2, 11.0, (-1.2,)), _at('O3', 3, 3, 11.0, ANISO, n % 2 == 0)] + \
+                           (CLOSE_CTX if ctx == 2 else []) + tail(n, end)
+                    add(body, **(dict(style=style) if style else {}))
+    # AFIX mn d[#] sof[11] U[10.08] x atoms with / without own occupation code x PART with / without one
+    for extra in ([], [0.98], [0.98, 21.0], [0.98, 21.0, -1.2], [0.98, 11.0, 10.08]):
+        for part in (None, ['part', 1, None], ['part', -2, 31.0]):
+            body = ([part] if part else []) + [_at('C1', 1, 1), ['afix', 43] + extra, _at('H2', 2, 2, 10.5, (-1.2,)), _at('H3', 2, 3, 11.0, (-1.5,)),
+                                                 _at('O4', 3, 4, None, ()), ['afix', 0], _at('N5', 4, 5, 20.5, ANISO)] + tail(len(extra))
+            add(body)
+    # RESI class[ ] number[0] alias in every token order, ended by the bare RESI / RESI 0 / HKLF
+    for form, num_, chain in (('cn', 3, None), ('nc', 3, None), ('n', 4, None), ('c', 0, None), ('cna', 5, None), ('nca', 5, None), ('nac', 5, None),
+                              ('cn', -3, None), ('cn', 6, 'A'), ('nc', 6, 'b'), ('bare', 0, None)):
+        for close in ('bare', 'n', None):
+            body = [_at('C1', 1, 1), ['resi', 'TOL', num_, form, 17, chain], _at('C2', 1, 2), _at('H3', 2, 3, 11.0, (-1.2,))] + \
+                   ([['resi', '', 0, close, 0, None]] if close else []) + [_at('O4', 3, 4, 10.5)] + tail(5 if close == 'bare' else 0)
+            add(body)
+    # atom lines with 5, 6, 7 and 12 columns (wrapped or not) under no PART / PART n / PART n sof, inside AFIX with sof
+    shapes = [(None, ()), (10.5, ()), (10.5, (0.04,)), (11.0, (0.04,)), (10.5, ANISO), (11.0, ANISO)]
+    for j, (sof, u) in enumerate(shapes):
+        for part in (None, ['part', 2, None], ['part', -1, 21.0]):
+            for wrap in ((False, True) if len(u) == 6 else (False,)):
+                body = [_at('C1', 1, 1)] + ([part] if part else []) + [['afix', 66, 1.39, 31.0], _at('C2', 1, 2, sof, u, wrap), ['afix', 0], _at('O3', 3, 3, sof, u, wrap)] + \
+                       ([['part', 0, None]] if part and j % 2 else []) + [_at('N4', 4, 4, sof, u, wrap)] + tail(j)
+                add(body)
+    return out
 
 
 def resi_cases(rng, n):
@@ -911,48 +1173,168 @@ def resi_cases(rng, n):
     return out
 
 
+# ------------------------------------------------------------------------------------------------
+# thorough tier: the same evaluation, spread over worker processes (case chunks are independent)
+
+class _Recorder:
+    """a view on the set of case hashes that remembers the one hash `Ctx.count` adds"""
+
+    def __init__(self, base):
+        self.base, self.added = base, None
+
+    def __contains__(self, h):
+        return h in self.base
+
+    def add(self, h):
+        self.added = h
+        self.base.add(h)
+
+
+class SubCtx(core.Ctx):
+    """the context of one worker: records per distinct case whether it was non-trivial, so that the parent can merge"""
+
+    def __init__(self, *a):
+        super().__init__(*a)
+        self.nt = {}
+
+    def count(self, key, nontrivial=True, sample=None, tags=()):
+        n0 = len(self._distinct)
+        self._distinct, mine = _Recorder(self._distinct), self._distinct
+        try:
+            super().count(key, nontrivial, sample, tags)
+            added = self._distinct.added
+        finally:
+            self._distinct = mine
+        if added is not None and len(mine) != n0:
+            self.nt[added] = bool(nontrivial)
+
+
+def _worker(task):
+    kind, payload, tier, seed = task
+    sub = SubCtx('C03', tier, seed)
+    enough = False
+    try:
+        if kind == 'enum':
+            evaluate(sub, [enum_case(seq, gaps) for seq, gaps in payload])
+        elif kind == 'resi':
+            evaluate(sub, payload, stream='resi')
+        else:
+            evaluate(sub, payload)
+    except core.EnoughFailures:
+        enough = True
+    return dict(evals=sub.evaluations, nt=sub.nt, dist=dict(sub.dist), samples=sub.samples, failures=sub.failures,
+                streams=sub.streams, lines=sub._driver.lines if sub._driver else 0, enough=enough)
+
+
+def _merge(ctx, r):
+    ctx.evaluations += r['evals']
+    for h, nt in r['nt'].items():
+        if h not in ctx._distinct:
+            ctx._distinct.add(h)
+            ctx.nontrivial += 1 if nt else 0
+    ctx.dist.update(r['dist'])
+    ctx.samples += r['samples'][:max(0, 6 - len(ctx.samples))]
+    for st in r['streams']:
+        ctx.stream(st)
+    ctx.driver.lines += r['lines']
+    for f in r['failures']:
+        report(ctx, f['signature'], f['what'], f['payload'], f['kind'])     # may raise EnoughFailures: the pool is torn down
+
+
+def jobs(ctx):
+    """worker processes: VERIF_JOBS, else 1 for the quick budget (a few seconds of work) and up to 16 for the thorough one"""
+    env = os.environ.get('VERIF_JOBS')
+    if env:
+        return max(1, int(env))
+    return min(16, os.cpu_count() or 1) if (ctx.tier == 'thorough' or ctx.escalated) else 1
+
+
+def evaluate_tasks(ctx, tasks):
+    """tasks: iterable of (kind, payload) with kind 'cases' | 'enum' | 'resi'; results are merged in task order, so the
+    verdict and the replay files do not depend on scheduling"""
+    n = jobs(ctx)
+    if n <= 1:
+        for kind, payload in tasks:
+            if kind == 'enum':
+                evaluate(ctx, [enum_case(seq, gaps) for seq, gaps in payload])
+            elif kind == 'resi':
+                evaluate(ctx, payload, stream='resi')
+            else:
+                evaluate(ctx, payload)
+        return
+    # No Pool.terminate() (it can dead-lock while the feeder thread holds a task): when enough failures are recorded the
+    # feed stops, the few tasks already handed out finish, the pool is closed and joined, then the signal is passed on.
+    stop = []
+
+    def feed():
+        for k, p in tasks:
+            if stop:
+                return
+            yield (k, p, ctx.tier, ctx.seed)
+    pool = multiprocessing.get_context('fork').Pool(n)
+    enough = None
+    try:
+        for r in pool.imap(_worker, feed()):
+            if enough is None:
+                try:
+                    _merge(ctx, r)
+                    if r['enough']:
+                        raise core.EnoughFailures()
+                except core.EnoughFailures as e:
+                    enough = e
+                    stop.append(1)
+    except BaseException:
+        stop.append(1)
+        raise
+    finally:
+        pool.close()
+        pool.join()
+    if enough is not None:
+        raise enough
+
+
 def run(ctx):
-    ctx.rule = ('generated files: SFAC table of 1..5 elements in any order and case, spelled with one or several SFAC instructions of both forms (element list / explicit coefficients, wrapped or not), optionally an element twice; keywords in upper/lower/title case, numbers as 5 decimals / shortest / exponent, trailing ! comments, five HKLF forms; 2..12 body items drawn from atoms (iso / aniso wrapped or not / '
-                'riding hydrogens, own occupation code or 11), PART n [sof], AFIX mn, RESI in seven token orders, FRAG..FEND blocks, '
+    ctx.rule = ('generated files: SFAC table of 1..5 elements in any order and case, spelled with one or several SFAC instructions of both forms (element list / explicit coefficients, wrapped or not), optionally an element twice; keywords in upper/lower/title case, numbers as 5 decimals / shortest / exponent, trailing ! comments; every instruction the atom rules depend on in every prefix of its optional parameters '
+                '(FRAG with 0..7 parameters, ten HKLF forms from the bare HKLF to all 13 parameters, AFIX mn [d [sof [U]]], PART n [sof], RESI in seven token orders and bare, atom lines with 5 / 6 / 7 / 12 columns): first a systematic enumeration (form_cases: each form under no / open / closed PART+AFIX+RESI context), then random files of 2..12 body items drawn from atoms (iso / aniso wrapped or not / '
+                'riding hydrogens, own occupation code or 11 or none), context instructions, FRAG..FEND blocks (plain or as DSR writes them: Cartesian coordinates, lines with sof and U, remark and blank line inside; followed by structure atoms that carry the names of the FRAG lines), '
                 '+include files (nested up to 2, on disk), other instructions; contexts closed or left open at HKLF; peaks between HKLF and END '
-                'and after END (+WGHT); a quarter of the files is the LAST of a read history (1-2 earlier files with the same elements in another SFAC order or an unrelated file, read by the same object or another one, every observable queried in between; last read by read_string / read_file / reload() after the file changed on disk); distinct by (SFAC, items); non-trivial = at least one atom and at least one of: context left open at HKLF, '
+                'and after END (+WGHT); a quarter of the files is the LAST of a read history (1-2 earlier files with the same elements in another SFAC order or an unrelated file, read by the same object or another one, every observable queried in between; last read by read_string / read_file / reload() after the file changed on disk); a quarter of the files is read by a verbose or debug Shelxfile (printed text ignored); distinct by (SFAC, items); non-trivial = at least one atom and at least one of: context left open at HKLF, '
                 'FRAG block, include, peaks, anisotropic atom. Thorough: every sequence of <= 4 context instructions from a 7-letter alphabet '
                 '(PART 2 31 / PART 0 / AFIX 43 / AFIX 0 / RESI TOL 3 / RESI 0 / HKLF) with 3 atoms in every gap placement, and every sequence of 5 and 6 '
                 'with the atoms spread.')
     ctx.assumptions = ['valid(file): an atom line between HKLF and END is peak shaped, <= 6 displacement values, FEND closes a FRAG (hypothesis of atoms_match_spec)',
                        'atom names unique per file; scattering-factor numbers within the SFAC table',
                        '`PART n 11` is the same as `PART n` (11 is the documented default of the sof parameter)',
-                       'include files contain no END line and are not included twice']
+                       'include files contain no END line and are not included twice',
+                       'PART and AFIX carry their first parameter (n, mn have no documented default; the bare words are not generated)',
+                       'a file handed to read_file() of a debug-mode Shelxfile has at least 20 lines (REM padding): below that the library calls sys.exit ("Not a SHELXL file")',
+                       'an atom line without U: nothing is compared for its displacement values against the specification (the property speaks of "its one or six" values)']
+    fc = form_cases()
+    if ctx.tier == 'thorough' or ctx.escalated:     # every form under every configuration and entry point (quick: rotating)
+        fc = [dict({k: v for k, v in c.items() if k not in ('cfg', 'mode')}, **dict([('cfg', cfg)] if cfg else []), **dict([('mode', mode)] if mode else []))
+              for c in fc for cfg in CFGS for mode in (None, 'file')]
+    evaluate(ctx, fc)       # in this process: the first failing form is reported before anything else runs
+    ctx.extra['forms'] = f'{len(fc)} files: FRAG with 0..7 parameters, {len(HKLF_FORMS)} HKLF forms, AFIX with 1..4, RESI in 8 forms, atom lines with 5/6/7/12 columns, each under open / closed / no context, quiet / verbose / debug'
     n = ctx.budget(1500, 30000)
     cases = [make_case(ctx.rng) for _ in range(n)]
-    for i in range(0, len(cases), 1000):
-        evaluate(ctx, cases[i:i + 1000])
-    evaluate(ctx, resi_cases(ctx.rng, ctx.budget(300, 5000)), stream='resi')
+    resi = resi_cases(ctx.rng, ctx.budget(300, 5000))
     # bounded-exhaustive interleavings
     kmax_full = 4 if (ctx.tier == 'thorough' or ctx.escalated) else 2
-    batch = []
-    total = 0
-
-    def flush():
-        nonlocal batch
-        if batch:
-            evaluate(ctx, batch)
-            batch = []
+    enum = []
     for k in range(0, kmax_full + 1):
         for seq in itertools.product(range(len(ALPHABET)), repeat=k):
             for gaps in itertools.combinations_with_replacement(range(k + 1), 3):
-                batch.append(enum_case(seq, gaps))
-                total += 1
-                if len(batch) >= 2000:
-                    flush()
+                enum.append((seq, gaps))
     if ctx.tier == 'thorough' or ctx.escalated:
         for k in (5, 6):
             for seq in itertools.product(range(len(ALPHABET)), repeat=k):
-                batch.append(enum_case(seq, (1, k // 2 + 1, k)))
-                total += 1
-                if len(batch) >= 2000:
-                    flush()
-    flush()
+                enum.append((seq, (1, k // 2 + 1, k)))
+    total = len(enum)
+    step_r, step_e = (500, 2000) if jobs(ctx) > 1 else (1000, 2000)
+    tasks = [('cases', cases[i:i + step_r]) for i in range(0, len(cases), step_r)] + [('resi', resi)] + \
+            [('enum', enum[i:i + step_e]) for i in range(0, len(enum), step_e)]
+    evaluate_tasks(ctx, tasks)
+    ctx.extra['jobs'] = jobs(ctx)
     ctx.extra['bounded_exhaustive'] = f'{total} files: all sequences of <= {kmax_full} context instructions x all placements of 3 atoms' + \
         (', all sequences of 5 and 6 with atoms after instruction 1, k/2+1, k' if kmax_full == 4 else '')
     ctx.exhaustive = False
